@@ -1,0 +1,38 @@
+//go:build verif
+
+package chain
+
+import "time"
+
+// Verification hooks (build tag verif only; nothing here is compiled into a normal build).
+
+// VerifForceFlushNext makes the next ApplyBlock/RevertBlock take the existing size/time based
+// flush branch (shouldFlush) by pretending that the last flush happened long ago. It is the
+// only way to reach the commit points inside a multi-block reorg without waiting five seconds
+// or writing 100 MB.
+func (db *DBStore) VerifForceFlushNext() {
+	db.lastFlush = time.Time{}
+}
+
+// VerifTreeKey exposes the key under which the Tree bucket stores node (row, col).
+func (db *DBStore) VerifTreeKey(row, col uint64) []byte {
+	return db.treeKey(row, col)
+}
+
+// VerifElementProof exposes getElementProof (the proof of leafIndex in a tree of numLeaves
+// leaves, read from the Tree bucket).
+func (db *DBStore) VerifElementProof(leafIndex, numLeaves uint64) (proof [][32]byte, err error) {
+	defer func() {
+		if r := recover(); r != nil {
+			err = errVerif{r}
+		}
+	}()
+	for _, h := range db.getElementProof(leafIndex, numLeaves) {
+		proof = append(proof, h)
+	}
+	return proof, nil
+}
+
+type errVerif struct{ v any }
+
+func (e errVerif) Error() string { return "panic" }
